@@ -11,8 +11,10 @@ Import ListNotations.
 
 Inductive cst := CInit | CEarly | CCred | CArmed | CStopped | CResumed | CProgram | CParked | CDead.
 (** how the child goes about it: [Unarmed] = the pinned sequence; [ArmLate] = the repaired one (the request follows the change of
-    ids); [ArmEarly] = the request first, the change of ids after it (the kernel clears the request when the ids change) *)
-Inductive mode := Unarmed | ArmLate | ArmEarly.
+    ids); [ArmEarly] = the request first, the change of ids after it (the kernel clears the request when the ids change);
+    [ArmLateOrphanIdiom] = as [ArmLate], but the test for a launcher that is gone already is the orphan idiom "getppid() == 1" in a process
+    tree with a child subreaper among the ancestors: the orphan's new parent is not pid 1 and the test does not notice *)
+Inductive mode := Unarmed | ArmLate | ArmEarly | ArmLateOrphanIdiom.
 Inductive tst := TStart | TWaited | TOptSet | TRunning | TDead.
 
 Record ls := { l_c : cst; l_t : tst; l_pdeath : bool; l_exitkill : bool; l_waited : bool }.
@@ -26,7 +28,8 @@ Definition t_dead s := match l_t s with TDead => true | _ => false end.
 (** the child's own moves: [CInit] the clone has returned; the ids are changed (setgroups / setgid / setuid of the Credential), which
     clears a parent-death signal asked for before; [CCred] ids changed *)
 Definition child_steps (m : mode) (s : ls) : list ls :=
-  let arm c := if t_dead s then [w_c s CDead]     (* prctl(PR_SET_PDEATHSIG, SIGKILL), then getppid: a launcher that is gone already is noticed *)
+  let notices := match m with ArmLateOrphanIdiom => false | _ => true end in
+  let arm c := if t_dead s && notices then [w_c s CDead]     (* prctl(PR_SET_PDEATHSIG, SIGKILL), then getppid: a launcher that is gone already is noticed *)
                else [{| l_c := c; l_t := l_t s; l_pdeath := true; l_exitkill := l_exitkill s; l_waited := l_waited s |}] in
   let stop := if t_dead s then [w_c s CParked] else [w_c s CStopped] in            (* PTRACE_TRACEME, kill(self, SIGSTOP) *)
   match l_c s with
@@ -36,7 +39,7 @@ Definition child_steps (m : mode) (s : ls) : list ls :=
              end
   | CEarly => [{| l_c := CArmed; l_t := l_t s; l_pdeath := false; l_exitkill := l_exitkill s; l_waited := l_waited s |}]   (* the ids change: request cleared *)
   | CCred => match m with
-             | ArmLate => arm CArmed
+             | ArmLate | ArmLateOrphanIdiom => arm CArmed
              | _ => stop
              end
   | CArmed => stop
@@ -136,6 +139,21 @@ Proof.
   exists e6. repeat split; assumption.
 Qed.
 
+(** the orphan idiom under a child subreaper: a launcher killed while the child is still setting up is not noticed; the request for
+    the parent-death signal comes too late (the parent is already gone), and the child stops for a tracer that will never come *)
+Theorem orphan_idiom_refuted : exists s, lreach ArmLateOrphanIdiom s /\ l_t s = TDead /\ l_c s = CParked.
+Proof.
+  set (o0 := w_c linit CCred).
+  set (o1 := {| l_c := CCred; l_t := TDead; l_pdeath := false; l_exitkill := false; l_waited := false |}).
+  set (o2 := {| l_c := CArmed; l_t := TDead; l_pdeath := true; l_exitkill := false; l_waited := false |}).
+  set (o3 := w_c o2 CParked).
+  assert (R0 : lreach ArmLateOrphanIdiom o0) by (apply (lr_step _ linit); [constructor|cbn; auto]).
+  assert (R1 : lreach ArmLateOrphanIdiom o1) by (apply (lr_step _ o0); [exact R0|cbn; auto]).
+  assert (R2 : lreach ArmLateOrphanIdiom o2) by (apply (lr_step _ o1); [exact R1|cbn; auto]).
+  assert (R3 : lreach ArmLateOrphanIdiom o3) by (apply (lr_step _ o2); [exact R2|cbn; auto]).
+  exists o3. repeat split; assumption.
+Qed.
+
 (** * executable prediction for the crash-point runs *)
 (** what becomes of the child when the tracer is killed in state [s]: the kill, then the child's own moves (at most three) *)
 Fixpoint run_child (m : mode) (fuel : nat) (s : ls) : list cst :=
@@ -153,7 +171,7 @@ Definition settle (m : mode) (s : ls) : list cst := flat_map (run_child m 4) (de
     3 = options set, 4 = the child was continued *)
 Definition states_at (m : mode) (step : nat) : list ls :=
   let mk c t p e w := {| l_c := c; l_t := t; l_pdeath := p; l_exitkill := e; l_waited := w |} in
-  let armed := match m with ArmLate => true | _ => false end in
+  let armed := match m with ArmLate | ArmLateOrphanIdiom => true | _ => false end in
   match step with
   | 0 => [mk CInit TStart false false false; mk CCred TStart false false false] ++
          (if armed then [mk CArmed TStart true false false] else []) ++ [mk CStopped TStart armed false false]
@@ -173,6 +191,10 @@ Example crash_prediction_armed : map (fun k => crash_ok (k, true)) [0; 1; 2; 3; 
 Proof. reflexivity. Qed.
 Example crash_prediction_unarmed :
   map (fun k => forallb (fun s => forallb cst_dead (settle Unarmed s)) (states_at Unarmed k)) [0; 1; 2; 3; 4] = [false; false; false; true; true].
+Proof. reflexivity. Qed.
+
+Example crash_prediction_orphan_idiom :
+  map (fun k => forallb (fun s => forallb cst_dead (settle ArmLateOrphanIdiom s)) (states_at ArmLateOrphanIdiom k)) [0; 1; 2; 3; 4] = [false; true; true; true; true].
 Proof. reflexivity. Qed.
 
 Lemma states_at_reach k s : In s (states_at ArmLate k) -> lreach ArmLate s.
